@@ -417,8 +417,8 @@ def _add_freeform_sp(c):
     from pptx.shapes.freeform import FreeformBuilder
 
     got = {}
-    spTree = SObj(None, "spTree", add_freeform_sp=GhostFn(lambda it, a, k: got.setdefault("a", a) and "sp"))
-    shapes = SObj(None, "shapes", _spTree=spTree)
+    spTree = SObj(None, "spTree", add_freeform_sp=GhostFn(lambda it, a, k: got.setdefault("a", a) and SObj(None, "sp", shape_id=0)))
+    shapes = SObj(None, "shapes", _spTree=spTree, _register_shape_id=GhostFn(lambda it, a, k: None))
     offx, offy, dx, dy = c.int("offset_x"), c.int("offset_y"), c.int("dx"), c.int("dy")
     c.requires(z3.And(dx >= 0, dy >= 0))  # proved post of _dx/_dy
     sx, sy = c.real("x_scale"), c.real("y_scale")
